@@ -206,7 +206,7 @@ struct Gen {
         default: n.func = "WWCT"; n.args = { "'" + rng.pick(w.wells) + "'" }; break;
         }
         n.op = rng.pick(kOps);
-        if (n.func == "MNTH") n.rhs = { rng.coin() ? rng.pick(Strs{ "JUN", "JAN", "DEC", "OKT", "JLY", "JUL", "'MAR'", "FEB", "NOV", "AUG", "SEP", "APR", "MAY", "OCT" }) : rng.pick(Strs{ "6", "6.3", "5.5", "11.5", "1", "6.5", "0.4", "12.49" }) };
+        if (n.func == "MNTH") n.rhs = { rng.coin() ? rng.pick(Strs{ "JUN", "JAN", "DEC", "OKT", "JLY", "JUL", "'MAR'", "FEB", "NOV", "AUG", "SEP", "APR", "MAY", "OCT" }) : rng.pick(Strs{ "6", "6.3", "5.5", "11.5", "1", "6.5", "0.4", "12.49", "2.5", "4.5", "8.5", "10.5", "0.5", "3.7" }) };
         else if (n.func == "YEAR") n.rhs = { rng.pick(Strs{ "2021", "2022.5", "2019", "2.022E3" }) };
         else if (n.func == "DAY") n.rhs = { rng.pick(Strs{ "1", "14", "28", "14.5", "+7" }) };
         else switch (rng.below(10)) {
@@ -483,7 +483,7 @@ int main(int argc, char** argv) {
 
     if (mode == "corr") {
         vh::Sink sink(outdir);
-        int nworlds = thorough ? 150 : 40, per = thorough ? 60 : 40;
+        int nworlds = thorough ? 200 : 80, per = thorough ? 60 : 40;
         Strs alphabet = { "(", ")", "AND", "OR", ">", "<=", "1", "FOPR", "WOPR", "P*", "=", "and" };
         for (int wi = 0; wi < nworlds; ++wi) {
             Env env(rng);
@@ -566,7 +566,7 @@ int main(int argc, char** argv) {
     if (mode == "prop") {
         vh::PropLog log(outdir + "/prop.txt");
         std::map<std::string, long> stats;
-        int nworlds = thorough ? 300 : 60, per = thorough ? 80 : 50;
+        int nworlds = thorough ? 400 : 120, per = thorough ? 80 : 50;
         for (int wi = 0; wi < nworlds; ++wi) {
             Env env(rng);
             for (int k = 0; k < per; ++k) {
@@ -601,6 +601,21 @@ int main(int argc, char** argv) {
                     std::string a = deckEval(toks, *env.ctx, &res);
                     if (a == "noparse" || a == "err") log.fail("cond-exception", "deck " + a + " cond=" + joinStrs(toks));
                     else judge("deck", toks, res);
+                }
+            }
+        }
+        // month comparisons: a numeric right-hand side counts as its NEAREST integer (halves away from zero)
+        for (int m = 1; m <= 12; ++m) {
+            SummaryState st(TimeService::now(), 0.0); WListManager wl; Action::Context cx(st, wl);
+            cx.add("MNTH", static_cast<double>(m));
+            for (double fr : { -0.5, -0.49, -0.3, 0.0, 0.3, 0.49, 0.5 }) {
+                char buf[32]; std::snprintf(buf, sizeof buf, "%.2f", m + fr);
+                const double nearest = std::floor(m + fr + 0.5);
+                for (const char* op : { "=", ">=", "<", "!=" }) {
+                    bool want = holds(static_cast<double>(m), op, nearest);
+                    bool got = Action::AST(Strs{ "MNTH", op, buf }).eval(cx).conditionSatisfied();
+                    if (got != want) log.fail("month-nearest", std::string("MNTH=") + std::to_string(m) + " cond=MNTH " + op + " " + buf);
+                    else { log.ok(); ++stats["month_nearest"]; }
                 }
             }
         }
